@@ -502,7 +502,8 @@ _scn_alloc = dict(_scn, harness="harness/scn_alloc.c", flags=_scn["flags"] + ["-
                   unwindset=dict(_scn["unwindset"], **{"harness_alloc_failure.0": 12, "harness_alloc_failure.1": 12, "verif_router_snprintf.0": 10, "verif_router_snprintf.1": 5}))
 # (handler, number of allocation attempts of the fault-free request: measured with the native build, asserted by
 #  C15.failure_injected_as_planned in every obligation)
-_STEPS = [(0, "add", 11), (1, "fetch", 27), (2, "change", 25), (3, "remove", 23), (4, "unfetch", 6), (5, "set", 16), (6, "get", 14), (7, "config", 7), (8, "info", 24)]
+_STEPS = [(0, "add", 11), (1, "fetch", 27), (2, "change", 25), (3, "remove", 23), (4, "unfetch", 6), (5, "set", 16), (6, "get", 14), (7, "config", 7), (8, "info", 24),
+          (9, "fetch_grow", 28)]     # the third subscription to an element: its subscription table (initially 2 slots) has to grow
 for _s, _nm, _n in _STEPS:
     for _k in range(_n + 1):
         O(id="C15.alloc_failure_%s_k%02d" % (_nm, _k), props=["C15", "C06", "C07"], entry="harness_alloc_failure",
@@ -510,7 +511,7 @@ for _s, _nm, _n in _STEPS:
           functions=["parse_message", "handle_method", "send_response", "the handler of '%s' and everything it calls" % _nm, "free_peer_resources"],
           symbolic="state value (the failing allocation attempt, #%d of %d, is fixed per obligation: %s)" % (_k, _n, "fault-free run" if _k == _n else "daemon or JSON-library allocation"),
           assumes=["set-up requests succeed (no fault)"],
-          bounds="one '%s' request in which allocation attempt %d fails, then both peers disconnect; 2 peers, <= 1 element, <= 1 fetch" % (_nm, _k),
+          bounds="one '%s' request in which allocation attempt %d fails, then a fault-free change, then both peers disconnect; 2 peers, <= 1 element, <= 3 fetches" % (_nm, _k),
           **_scn_alloc)
 _also(["C15.alloc_failure_"], ["C06"])
 
@@ -861,3 +862,7 @@ for _vt, _nm in enumerate(("null", "false", "empty_string", "empty_array", "empt
     O(id="C04.state_with_value_" + _nm, props=["C04", "C02"], entry="harness_value_types", defines=["VTYPE=%d" % _vt],
       functions=["add_element_to_peer", "init_element", "get_elements", "set_or_call", "change_state"],
       symbolic="argument / new value", assumes=[], bounds="O adds 'v' with the value %s; A get, A call, O change" % _nm, **_scn_guard)
+
+# round 4: which properties further obligations bear on
+_also(["C12.upgrade_rules"], ["C13"])                    # every label says which handshakes are (not) upgraded: a non-upgrade answered 101 is C13's subject
+_also(["C10.writev_step", "C10.flush_step"], ["C06"])     # the write buffer's fill level stays inside the buffer (memory safety of the send path)
